@@ -216,7 +216,7 @@ func (e *explainer) explain(goal ast.Atom, depth int) []*ProofNode {
 
 	var proofs []*ProofNode
 
-	if e.isEDB(goal.Predicate) && e.store.Contains(goal) {
+	if (e.isEDB(goal.Predicate) || e.isInitialFact(goal)) && e.store.Contains(goal) {
 		proofs = append(proofs, &ProofNode{
 			ID:   edbProofID(goal),
 			Fact: goal,
@@ -407,6 +407,21 @@ func (e *explainer) isEDB(p ast.PredicateSym) bool {
 	}
 	_, ok := e.program.EdbPredicates[p]
 	return ok
+}
+
+// isInitialFact reports whether goal is a base fact written in the program.
+// A predicate that also has rules is intensional, its base facts are still
+// leaves of a proof.
+func (e *explainer) isInitialFact(goal ast.Atom) bool {
+	if e.program == nil {
+		return false
+	}
+	for _, f := range e.program.InitialFacts {
+		if f.Equals(goal) {
+			return true
+		}
+	}
+	return false
 }
 
 // --- helpers ---
